@@ -466,17 +466,17 @@ var c10MutByName = func() map[string]c10Mut {
 }()
 
 type c10Result struct {
-	key      string
-	outcome  string
-	class    string
-	viols    []c10Viol
-	infra    string
-	hasRet   bool
-	hasOrig  bool
-	pending  bool
-	steps    int // real-code calls (Exec) executed
-	nStored  int
-	nHanded  int
+	key     string
+	outcome string
+	class   string
+	viols   []c10Viol
+	infra   string
+	hasRet  bool
+	hasOrig bool
+	pending bool
+	steps   int // real-code calls (Exec) executed
+	nStored int
+	nHanded int
 }
 
 // c10Exec replays path on a fresh Cache, executes op with all oracles and
@@ -755,8 +755,7 @@ func c10Replay(t *testing.T, in json.RawMessage) {
 // c10WalkerSelfTest is a positive/negative control of oracle (2) run before every
 // exploration: deep copies share nothing, and each classic aliasing shape is seen.
 func c10WalkerSelfTest() string {
-	a, opt := c10Build(0, 1, 1)
-	a.Extra = append(a.Extra, opt)
+	a, _ := c10Build(0, 1, 1) // no OPT: what the cache stores and serves
 	root := func(kind string, o ...any) *c10Root { return &c10Root{Kind: kind, Name: kind, Objs: o} }
 	expect := func(name string, want string, roots ...*c10Root) string {
 		sh := c10FindSharing(roots)
@@ -793,9 +792,18 @@ func c10WalkerSelfTest() string {
 	if m := expect("zero-length reslice of a shared array", "Answer[]", root("a", a), root("d", d)); m != "" {
 		return m
 	}
-	f := a.Copy()
-	f.Extra[2].(*dns.OPT).Option[0] = a.Extra[2].(*dns.OPT).Option[0]
-	if m := expect("shared EDNS0 option", "Extra.*dns.OPT.Option.*dns.EDNS0_LOCAL", root("a", a), root("f", f)); m != "" {
+	// two independent builds share nothing, even with their OPT records attached
+	// (note: dns.Msg.Copy() is NOT used here - miekg/dns v1.1.62 EDNS0_SUBNET.copy()
+	// shares the Address bytes, which is why the cache must never store an OPT)
+	g1, o1 := c10Build(1, 1, 1)
+	g2, o2 := c10Build(1, 1, 1)
+	g1.Extra = append(g1.Extra, o1)
+	g2.Extra = append(g2.Extra, o2)
+	if m := expect("independent builds", "", root("g1", g1), root("g2", g2)); m != "" {
+		return m
+	}
+	o2.Option[0] = o1.Option[0]
+	if m := expect("shared EDNS0 option", "Extra.*dns.OPT.Option.*dns.EDNS0_LOCAL", root("g1", g1), root("g2", g2)); m != "" {
 		return m
 	}
 	return ""
